@@ -1,5 +1,6 @@
 import JwtModel.Encode
 import Props.FnTie
+import Props.Utf8Order
 /-!
 # C13 — encoding is deterministic and independent of map / insertion order
 
